@@ -129,10 +129,13 @@ func (s *scriptedRouter) Send(m wamp.Message) bool {
 	case s.peer.Send() <- m:
 		return true
 	case <-tm.C:
+		info := fmt.Sprintf("message %v %v not taken by the client between %v and %v; goroutines then:\n%s", m.MessageType(), m, time.Since(s.start)-time.Hour, time.Since(s.start), clientStacks())
+		s.mu.Lock()
 		if !s.stuck {
-			s.stuckInfo = fmt.Sprintf("message %v %v not taken by the client between %v and %v; goroutines then:\n%s", m.MessageType(), m, time.Since(s.start)-time.Hour, time.Since(s.start), clientStacks())
+			s.stuckInfo = info
 		}
 		s.stuck = true
+		s.mu.Unlock()
 		return false
 	case <-s.quit:
 		return false
@@ -141,14 +144,14 @@ func (s *scriptedRouter) Send(m wamp.Message) bool {
 
 // Stuck reports whether the client stopped taking messages from its transport.
 func (s *scriptedRouter) Stuck() bool {
-	s.sendMu <- struct{}{}
-	defer func() { <-s.sendMu }()
+	s.mu.Lock()
+	defer s.mu.Unlock()
 	return s.stuck
 }
 
 func (s *scriptedRouter) StuckInfo() string {
-	s.sendMu <- struct{}{}
-	defer func() { <-s.sendMu }()
+	s.mu.Lock()
+	defer s.mu.Unlock()
 	return s.stuckInfo
 }
 
